@@ -49,6 +49,7 @@ type SpecFn struct {
 	Ret    string
 	Src    string
 	Body   *CExpr
+	Reads  []*CExpr // abstract functions: expressions whose heap footprint the function may depend on
 	Line   int
 }
 
@@ -74,6 +75,7 @@ type ContractFile struct {
 
 var reFuncHdr = regexp.MustCompile(`^func\s+(?:\(\s*(?:\w+\s+)?\*?(\w+)\s*\)\s*)?([\w$.]+)\s*(\(.*)?$`)
 var reSpecHdr = regexp.MustCompile(`^pure\s+(?:(opaque|rec|abstract)\s+)?func\s+(\w+)\s*\(([^)]*)\)\s*([^=]*?)\s*(?:=\s*(.*))?$`)
+var reReads = regexp.MustCompile(`^(.*?)\s+reads\s+(.*)$`)
 var reLemmaHdr = regexp.MustCompile(`^lemma\s+(\w+)\s*\(([^)]*)\)\s*$`)
 var reLoop = regexp.MustCompile(`^loop\s+(\d+)\s*:\s*(.*)$`)
 var reLabel = regexp.MustCompile(`^@(\w+)\s+(.*)$`)
@@ -177,6 +179,18 @@ func parseContractFile(path string) (*ContractFile, error) {
 			sf := &SpecFn{Name: m[2], Kind: m[1], Params: ps, Ret: strings.TrimSpace(m[4]), Src: m[5], Line: b.line}
 			if sf.Kind == "" {
 				sf.Kind = "macro"
+			}
+			if sf.Kind == "abstract" {
+				if m2 := reReads.FindStringSubmatch(sf.Ret); m2 != nil {
+					sf.Ret = strings.TrimSpace(m2[1])
+					for _, part := range splitTopComma(m2[2]) {
+						e, err := parseCExpr(part)
+						if err != nil {
+							return nil, fmt.Errorf("%s:%d: %v", path, b.line, err)
+						}
+						sf.Reads = append(sf.Reads, e)
+					}
+				}
 			}
 			if sf.Kind != "abstract" {
 				e, err := parseCExpr(sf.Src)
